@@ -10,7 +10,7 @@ import pandas
 import sympy
 
 from symnum import sym as S, solver as Z, executor as X
-from symnum.sym import Sym, symarray
+from symnum.sym import Sym, SymError, symarray
 from symnum.npproxy import NumpyProxy, patched
 from symnum.exactlift import rt
 
@@ -106,14 +106,41 @@ def invariance_equations(system, cvars):
 # relations as the real code parses them
 # ------------------------------------------------------------------------------------------
 def capture_relations(F, system):
-    """Run the real fill_cij on a one-row probe and read the relation rows off the design matrix handed to lstsq."""
-    proxy = NumpyProxy()
+    """Run the real fill_cij (real numpy, concrete one-row probe) and read the relation rows off the design matrix it hands to its
+    least-squares solver: numpy.linalg.lstsq and scipy.linalg.lstsq are wrapped by recorders for the duration of the call, so the capture
+    does not depend on which of the two the code uses or through which name it reaches it."""
+    import numpy.linalg as nl
+    import scipy.linalg as sl
+    recs = []
+    orig_n, orig_s = nl.lstsq, sl.lstsq
+
+    def rec_n(a, b, *args, **kw):
+        recs.append(numpy.array(a, dtype=float))
+        return orig_n(a, b, *args, **kw)
+
+    def rec_s(a, b, *args, **kw):
+        recs.append(numpy.array(a, dtype=float))
+        return orig_s(a, b, *args, **kw)
     df = pandas.DataFrame({"V": [1.0], "c11": [1.0]})
-    with patched((F, {"numpy": proxy})):
-        out = F.fill_cij(df, system, ignore_rank=True, ignore_residuals=True)
-    if not proxy.lstsq_records:
-        return []   # no relations (e.g. triclinic): fill returned early
-    a = proxy.lstsq_records[-1]["a"]
+    nl.lstsq, sl.lstsq = rec_n, rec_s
+    # names bound at import time inside the module (from scipy.linalg import lstsq) are rebound as well
+    rebound = {k: v for k, v in vars(F).items() if v is orig_n or v is orig_s}
+    for k, v in rebound.items():
+        setattr(F, k, rec_n if v is orig_n else rec_s)
+    try:
+        import warnings as _w
+        with _w.catch_warnings():
+            _w.simplefilter("ignore")
+            out = F.fill_cij(df.copy(), system, ignore_rank=True, ignore_residuals=True)
+    finally:
+        nl.lstsq, sl.lstsq = orig_n, orig_s
+        for k, v in rebound.items():
+            setattr(F, k, v)
+    if not recs:
+        if list(out.columns) == list(df.columns):
+            return []   # the table came back as it went in: no relations (triclinic), fill returned early
+        raise SymError("fill_cij solved the system without a call of numpy.linalg.lstsq / scipy.linalg.lstsq: relations not captured")
+    a = recs[-1]
     rows = []
     for r in a[1:]:
         rows.append([Fraction(float(x)).limit_denominator(10 ** 6) for x in r])
